@@ -52,9 +52,24 @@ type Case struct {
 }
 
 const (
-	returnBound  = 10 * time.Second // "promptly", very generously
+	// "promptly": a guest whose every round passes a check point must be back within a fixed
+	// slack plus a few rounds of its cycle after the trigger; the slack is what a loaded machine
+	// may need to schedule the watcher, the guest and the caller (observed: < 1 ms typical)
+	promptSlack  = 3 * time.Second
+	promptRounds = 20
+	// cycles that can only end by exhausting the call stack on their own (compiler: up to ~1 s)
+	returnBound  = 10 * time.Second
 	watchdogTime = 20 * time.Second
 )
+
+// bound is how long after the trigger the call may still be running.
+func (c *Case) bound() time.Duration {
+	s := &c.Shape
+	if s.class() == "must-exit" || s.hasCheckPoint() {
+		return promptSlack + promptRounds*time.Duration(s.SleepMs)*time.Millisecond
+	}
+	return returnBound
+}
 
 func (c *Case) wantCode() uint32 {
 	switch c.Cause {
@@ -137,6 +152,7 @@ func runCase(c *Case) (res Result) {
 	_, err := rt.NewHostModuleBuilder("env").
 		NewFunctionBuilder().WithFunc(func(ctx context.Context) { ev.heartbeat() }).Export("hb").
 		NewFunctionBuilder().WithFunc(func(ctx context.Context) {}).Export("nop").
+		NewFunctionBuilder().WithFunc(func(ctx context.Context) { time.Sleep(time.Duration(c.Shape.SleepMs) * time.Millisecond) }).Export("nap").
 		NewFunctionBuilder().WithFunc(func(ctx context.Context, mod api.Module) uint32 {
 		// guest -> host -> guest: a fresh function object, the context passed through
 		r, err := mod.ExportedFunction("spin").Call(ctx)
@@ -314,8 +330,8 @@ func runCase(c *Case) (res Result) {
 	}
 	if trig != 0 && returned.UnixNano() > trig {
 		res.TriggerLag = time.Duration(returned.UnixNano() - trig)
-		if res.TriggerLag > returnBound {
-			res.Msg = fmt.Sprintf("the call returned %v after the trigger (bound %v)", res.TriggerLag, returnBound)
+		if b := c.bound(); res.TriggerLag > b {
+			res.Msg = fmt.Sprintf("the call returned only %v after the trigger (cause %s); one round of the cycle costs about %d ms and every round passes a check point, so it should have been back within %v", res.TriggerLag, c.Cause, s.SleepMs, b)
 			return
 		}
 	}
@@ -417,6 +433,16 @@ func genShape(t *rapid.T) Shape {
 		}
 		s.Inner = rapid.SampledFrom([]int{0, 1, 10, 1000, 1000}).Draw(t, "inner-loop")
 	}
+	if rapid.IntRange(0, 3).Draw(t, "slow-round") == 0 {
+		// a round that is slow: 1023 of them take 5-10 s
+		s.SleepMs = rapid.SampledFrom([]int{5, 8, 10}).Draw(t, "sleep-ms")
+		s.SleepVia = rapid.SampledFrom([]string{"body", "callee"}).Draw(t, "sleep-via")
+		if !s.hasCheckPoint() {
+			// plain recursion without any loop has no check point and would need hours of such
+			// rounds to exhaust the stack: give every level a loop header
+			s.Inner = 1
+		}
+	}
 	s.Entry = rapid.SampledFrom([]string{"export", "export", "callback", "callback", "import", "import2", "import2", "start", "_start"}).Draw(t, "entry")
 	return s
 }
@@ -429,6 +455,9 @@ func genCase(t *rapid.T) *Case {
 		c.Cause = "none"
 		c.CtlCtx = rapid.SampledFrom([]string{"background", "cancel", "timeout"}).Draw(t, "control-ctx")
 		c.Shape.Limit = rapid.SampledFrom([]int{1, 2, 17, 300}).Draw(t, "rounds")
+		if c.Shape.SleepMs > 0 && c.Shape.Limit > 17 {
+			c.Shape.Limit = 17
+		}
 		return c
 	}
 	causes := []string{"cancel", "cancel", "timeout", "timeout", "close", "close-code", "done-cancel", "done-deadline"}
@@ -492,6 +521,9 @@ func labelsOf(c *Case, r Result) []string {
 		}
 		l = append(l, fmt.Sprintf("calls:cycle-length:%d", len(s.Edges)))
 	}
+	if s.SleepMs > 0 {
+		l = append(l, "slow-round:"+s.SleepVia, "slow-round:"+s.Kind+":"+c.Engine)
+	}
 	if r.Heartbeat {
 		l = append(l, "in-flight-when-triggered")
 	}
@@ -512,6 +544,20 @@ func TestCycles(t *testing.T) {
 		}
 		nontrivial := c.Cause != "none" && r.Heartbeat && !c.Shape.plain() && c.Cause != "done-cancel" && c.Cause != "done-deadline"
 		evid.Case(caseKey(c), nontrivial, labelsOf(c, r)...)
+		if c.Cause != "none" && c.bound() != returnBound && r.TriggerLag > 0 {
+			// distribution of the observed latency for the shapes held to the prompt bound
+			lag := r.TriggerLag - time.Duration(c.Shape.SleepMs)*time.Millisecond
+			switch {
+			case lag < 10*time.Millisecond:
+				evid.Label("latency-beyond-one-round:<10ms", 1)
+			case lag < 100*time.Millisecond:
+				evid.Label("latency-beyond-one-round:<100ms", 1)
+			case lag < time.Second:
+				evid.Label("latency-beyond-one-round:<1s", 1)
+			default:
+				evid.Label("latency-beyond-one-round:>=1s", 1)
+			}
+		}
 		if r.TriggerLag > time.Second {
 			evid.Label(fmt.Sprintf("returned-more-than-1s-after-trigger:%s:gomaxprocs=%d:%s:%s", c.Engine, c.Procs, c.Cause, c.Shape.class()), 1)
 			evid.Sample("slow-return", 4, map[string]any{"case": c, "lag_ms": r.TriggerLag.Milliseconds()})
